@@ -77,3 +77,24 @@ func VP_C08_FromCode() {
 	}
 	vp.Reach("done")
 }
+
+// VP_C08_Independent: an encoding stays valid while the codec goes on encoding and decoding other data: for every x1, x2
+// (lengths n, n2), e1 = Encode(x1) is unchanged by a later Encode(x2) and both decode back to their own input. Run with
+// poolreuse=1: a sync.Pool hands back the most recently returned object.
+func VP_C08_Independent() {
+	c := vpCodecs()[vp.Param("codec")]
+	x1 := vp.Bytes("x", vp.Param("n"))
+	x2 := vp.Bytes("y", vp.Param("n2"))
+	o1 := append([]byte(nil), x1...)
+	o2 := append([]byte(nil), x2...)
+	e1 := c.Encode(x1)
+	snap := append([]byte(nil), e1...)
+	e2 := c.Encode(x2)
+	vp.Assert(vp.BytesEq(e1, snap), "earlier-encoding-unchanged-by-later-encode")
+	d2, err2 := c.Decode(append([]byte(nil), e2...))
+	vp.Assert(err2 == nil && len(d2) == len(o2) && vp.BytesEq(d2, o2), "second-decodes")
+	vp.Assert(vp.BytesEq(e1, snap), "earlier-encoding-unchanged-by-later-decode")
+	d1, err1 := c.Decode(e1)
+	vp.Assert(err1 == nil && len(d1) == len(o1) && vp.BytesEq(d1, o1), "first-decodes-after-later-calls")
+	vp.Reach("independent")
+}
